@@ -38,6 +38,8 @@ type PKI struct {
 	CliForeign   KeyPair // client certificate by ForeignCA
 	ImpostorCA   KeyPair // same subject name as GoodCA, another key: a client holding its certificates sends them when asked for GoodCA's
 	CliImpostor  KeyPair // client certificate by ImpostorCA
+	SrvExpiring  KeyPair // GoodCA, all matching names; valid now, NotAfter 200 s after the epoch (a run connects well before)
+	SrvNotYet    KeyPair // GoodCA, all matching names; NotBefore 200 s after the epoch (not valid yet when a run connects)
 }
 
 var (
@@ -131,6 +133,9 @@ func GetPKI() *PKI {
 		p.CliForeign = mkLeaf(p.ForeignCA, "client foreign", 21, nil, nil, nb, na, true)
 		p.ImpostorCA = mkCA("verif good CA", 3)
 		p.CliImpostor = mkLeaf(p.ImpostorCA, "client impostor", 22, nil, nil, nb, na, true)
+		all := []string{"server.test", Domain}
+		p.SrvExpiring = mkLeaf(p.GoodCA, "server.test", 30, all, ips, nb, Epoch.Add(200*time.Second), false)
+		p.SrvNotYet = mkLeaf(p.GoodCA, "server.test", 31, all, ips, Epoch.Add(200*time.Second), na, false)
 		pki = p
 	})
 	return pki
